@@ -23,6 +23,8 @@ def is_c10(f):
         return True
     if f.kind == "K9" and "server" in f.key:
         return True
+    if f.kind == "K14":
+        return True
     return False
 
 
